@@ -144,6 +144,10 @@ def main():
                 elif fam == 'mutant' and problem == 'step budget exceeded':
                     chk.count('mutants_running_long_not_judged')
                     continue
+                elif fam == 'corpus' and problem == 'step budget exceeded':
+                    # a generated program that loops for ever is a generator matter, not a runtime crash
+                    chk.count('corpus_programs_running_long_not_judged')
+                    continue
                 else:
                     sig = sig_prefix + problem
                 chk.violation(sig, {'main.lay': text}, {'label': label, 'cfg': cfg, 'observed': brief})
